@@ -362,6 +362,266 @@ if not getattr(py2lean.Translator.expr_real, '_c04_casts', False):
 if not getattr(py2lean.find_function, '_c04_hessian', False):
     py2lean.find_function = _with_hessian(py2lean.find_function)
 
+# ---------------------------------------------------------------------------------------------------------
+# `fitting.lmfit_jacobian` as a pipeline (deepening round).  After the matrix of derivative rows has been obtained
+# from `jacobian(pars, x, y)`, the body is read as a sequence of steps on that matrix:
+#       1 = `if errs is not None: M /= errs`      2 = `if B is not None: M = M.dot(B)`      3 = `M = np.transpose(M)`
+# (`np.vstack/np.array/np.asarray(M)` on the 2-D matrix are the identity).  The slice is written as a small
+# int-mode Python function `lmj(k)`: op = code of step k, n = number of steps, src = 1 when the rows come from
+# the analytic `jacobian(<first three arguments>)` for emp false.  Anything else that touches the matrix — another
+# statement, another guard, another operand — makes the slice call `unrecognised(...)`, which the translator
+# rejects: UNTRANSLATABLE, the hand pipeline stands in, only the correspondence ties it.
+# ---------------------------------------------------------------------------------------------------------
+import hashlib
+import os
+import tempfile
+
+
+def _is_none_guard(test, name):
+    return isinstance(test, ast.Compare) and isinstance(test.left, ast.Name) and test.left.id == name \
+        and len(test.ops) == 1 and isinstance(test.ops[0], ast.IsNot) \
+        and isinstance(test.comparators[0], ast.Constant) and test.comparators[0].value is None
+
+
+def _np_call(node, names, nargs=1):
+    return isinstance(node, ast.Call) and not node.keywords and len(node.args) == nargs \
+        and isinstance(node.func, ast.Attribute) and isinstance(node.func.value, ast.Name) \
+        and node.func.value.id in ('np', 'numpy') and node.func.attr in names
+
+
+def _is_name(node, name):
+    return isinstance(node, ast.Name) and node.id == name
+
+
+def _lmj_steps(fn):
+    """(ops, src) or None if something is not recognised"""
+    args = [a.arg for a in fn.args.args]
+    if len(args) < 5 or 'errs' not in args or 'B' not in args:
+        return None
+    body = list(fn.body)
+    if body and isinstance(body[0], ast.Expr) and isinstance(body[0].value, ast.Constant):
+        body = body[1:]
+    rets = [n for n in ast.walk(fn) if isinstance(n, ast.Return)]
+    if len(rets) != 1 or rets[0] is not body[-1] or rets[0].value is None:
+        return None
+
+    def analytic(call):
+        return isinstance(call, ast.Call) and isinstance(call.func, ast.Name) and call.func.id == 'jacobian' \
+            and not call.keywords and [ast.unparse(a) for a in call.args] == args[:3]
+
+    def is_transpose(v, var):
+        return (_np_call(v, ('transpose',)) and _is_name(v.args[0], var)) \
+            or (isinstance(v, ast.Attribute) and v.attr == 'T' and _is_name(v.value, var)) \
+            or (isinstance(v, ast.Call) and not v.args and not v.keywords and isinstance(v.func, ast.Attribute)
+                and v.func.attr == 'transpose' and _is_name(v.func.value, var))
+
+    var, src, ops = None, 0, []
+    for st in body:
+        if isinstance(st, ast.Expr) and isinstance(st.value, ast.Constant):
+            continue
+        if var is None:
+            # where the rows come from
+            if isinstance(st, ast.If) and _is_name(st.test, 'emp') and len(st.body) == 1 and len(st.orelse) == 1 \
+                    and all(isinstance(b, ast.Assign) and len(b.targets) == 1 and isinstance(b.targets[0], ast.Name)
+                            for b in (st.body[0], st.orelse[0])) \
+                    and st.body[0].targets[0].id == st.orelse[0].targets[0].id and analytic(st.orelse[0].value):
+                var, src = st.orelse[0].targets[0].id, 1
+                continue
+            if isinstance(st, ast.Assign) and len(st.targets) == 1 and isinstance(st.targets[0], ast.Name) \
+                    and analytic(st.value):
+                var, src = st.targets[0].id, 1
+                continue
+            return None
+        if isinstance(st, ast.Return):
+            if _is_name(st.value, var):
+                return ops, src
+            if is_transpose(st.value, var):
+                return ops + [3], src
+            return None
+        if isinstance(st, ast.Assign) and len(st.targets) == 1 and _is_name(st.targets[0], var):
+            v = st.value
+            if _np_call(v, ('vstack', 'array', 'asarray', 'asanyarray')) and _is_name(v.args[0], var):
+                continue
+            if is_transpose(v, var):
+                ops.append(3)
+                continue
+            return None
+        if isinstance(st, ast.If) and not st.orelse and len(st.body) == 1:
+            b = st.body[0]
+            if _is_none_guard(st.test, 'errs'):
+                if isinstance(b, ast.AugAssign) and _is_name(b.target, var) and isinstance(b.op, ast.Div) \
+                        and _is_name(b.value, 'errs'):
+                    ops.append(1)
+                    continue
+                if isinstance(b, ast.Assign) and len(b.targets) == 1 and _is_name(b.targets[0], var) \
+                        and isinstance(b.value, ast.BinOp) and isinstance(b.value.op, ast.Div) \
+                        and _is_name(b.value.left, var) and _is_name(b.value.right, 'errs'):
+                    ops.append(1)
+                    continue
+                return None
+            if _is_none_guard(st.test, 'B') and isinstance(b, ast.Assign) and len(b.targets) == 1 \
+                    and _is_name(b.targets[0], var):
+                v = b.value
+                if (isinstance(v, ast.Call) and not v.keywords and len(v.args) == 1 and isinstance(v.func, ast.Attribute)
+                        and v.func.attr == 'dot' and _is_name(v.func.value, var) and _is_name(v.args[0], 'B')) \
+                        or (_np_call(v, ('dot', 'matmul'), 2) and _is_name(v.args[0], var) and _is_name(v.args[1], 'B')) \
+                        or (isinstance(v, ast.BinOp) and isinstance(v.op, ast.MatMult) and _is_name(v.left, var)
+                            and _is_name(v.right, 'B')):
+                    ops.append(2)
+                    continue
+                return None
+        return None
+    return None
+
+
+def _lmj_slice():
+    repo = os.environ.get('AEGEAN_REPO', '/repo')
+    try:
+        tree = ast.parse(open(os.path.join(repo, 'AegeanTools/fitting.py')).read())
+        fn = [n for n in tree.body if isinstance(n, ast.FunctionDef) and n.name == 'lmfit_jacobian'][0]
+        r = _lmj_steps(fn)
+    except Exception:
+        r = None
+    if r is None or len(r[0]) > 8:
+        text = "def lmj(k):\n    op = unrecognised(k)\n    n = unrecognised(k)\n    src = unrecognised(k)\n"
+    else:
+        ops, src = r
+        text = "def lmj(k):\n    op = 0\n" + "".join(f"    if k == {i}:\n        op = {c}\n" for i, c in enumerate(ops)) \
+            + f"    n = {len(ops)}\n    src = {src}\n"
+    try:
+        ftext = _fisher_slice_text(tree)
+    except Exception:
+        ftext = None
+    if ftext is None:
+        ftext = "def fisher(k):\n" + "".join(f"    {v} = unrecognised(k)\n" for v in ('wc', 'wb', 'nc', 'nb', 'jc', 'jb', 'sig'))
+    text = text + "\n\n" + ftext
+    d = os.path.join(tempfile.gettempdir(), 'verif-C04-slices')
+    os.makedirs(d, exist_ok=True)
+    path = os.path.join(d, 'lmfit_jacobian_' + hashlib.sha1(text.encode()).hexdigest()[:12] + '.py')
+    if not os.path.exists(path):
+        with open(path + '.tmp%d' % os.getpid(), 'w') as f:
+            f.write(text)
+        os.replace(path + '.tmp%d' % os.getpid(), path)
+    return path
+
+
+# ---------------------------------------------------------------------------------------------------------
+# The Fisher-matrix assembly of `fitting.covar_errors` (deepening round).  In the try-body of the branch
+# `if C is not None:` and of the branch `if C is None:` three assignments are read:
+#     J = lmfit_jacobian(<params>, mask[0], mask[1], errs=errs[, B=B])     -> jc / jb: 1 = errs only, 2 = errs and B
+#     covar = <product of J, transposes of J, inv(C)>                      -> a word over  1 = J^T, 2 = J, 3 = inv(C)
+#                                                                             (np.transpose / .T / .dot / np.dot / @
+#                                                                             are normalised; (XY)^T = Y^T X^T)
+#     onesigma = np.sqrt(np.diag(inv(covar)))                               -> sig = 1 in both branches
+# Slice `fisher(k)`: wc/wb = letter k of the word of the C / B branch (0 beyond its length), nc/nb the lengths.
+# Any other statement in those bodies (except `log.<level>(...)` calls) is unrecognised -> UNTRANSLATABLE.
+# ---------------------------------------------------------------------------------------------------------
+
+def _mat_word(e, J, C):
+    """word of a matrix product expression, or None"""
+    if isinstance(e, ast.Name) and e.id == J:
+        return [2]
+    if isinstance(e, ast.Call) and not e.keywords and len(e.args) == 1 and isinstance(e.func, ast.Name) \
+            and e.func.id == 'inv' and _is_name(e.args[0], C):
+        return [3]
+    t = None
+    if _np_call(e, ('transpose',)):
+        t = e.args[0]
+    elif isinstance(e, ast.Attribute) and e.attr == 'T':
+        t = e.value
+    if t is not None:
+        w = _mat_word(t, J, C)
+        if w is None or 3 in w:
+            return None
+        return [{1: 2, 2: 1}[c] for c in reversed(w)]
+    pair = None
+    if isinstance(e, ast.Call) and not e.keywords and len(e.args) == 1 and isinstance(e.func, ast.Attribute) \
+            and e.func.attr == 'dot':
+        pair = (e.func.value, e.args[0])
+    elif _np_call(e, ('dot', 'matmul'), 2):
+        pair = (e.args[0], e.args[1])
+    elif isinstance(e, ast.BinOp) and isinstance(e.op, ast.MatMult):
+        pair = (e.left, e.right)
+    if pair is not None:
+        a, b = _mat_word(pair[0], J, C), _mat_word(pair[1], J, C)
+        if a is None or b is None:
+            return None
+        return a + b
+    return None
+
+
+def _fisher_branch(body, fn_params):
+    """(jac kwargs code, word) of one try-body, or None"""
+    J = covar = None
+    code = word = None
+    sig = 0
+    for st in body:
+        if isinstance(st, ast.Expr) and isinstance(st.value, ast.Call) and isinstance(st.value.func, ast.Attribute) \
+                and _is_name(st.value.func.value, 'log'):
+            continue
+        if not (isinstance(st, ast.Assign) and len(st.targets) == 1 and isinstance(st.targets[0], ast.Name)):
+            return None
+        name, v = st.targets[0].id, st.value
+        if J is None:
+            if not (isinstance(v, ast.Call) and isinstance(v.func, ast.Name) and v.func.id == 'lmfit_jacobian'
+                    and [ast.unparse(a) for a in v.args] == [fn_params[0], 'mask[0]', 'mask[1]']):
+                return None
+            kws = {k.arg: ast.unparse(k.value) for k in v.keywords}
+            if kws == {'errs': 'errs'}:
+                code = 1
+            elif kws == {'errs': 'errs', 'B': 'B'}:
+                code = 2
+            else:
+                return None
+            J = name
+        elif covar is None:
+            word = _mat_word(v, J, 'C')
+            if word is None or len(word) > 6:
+                return None
+            covar = name
+        elif sig == 0:
+            if not (_np_call(v, ('sqrt',)) and _np_call(v.args[0], ('diag',)) and isinstance(v.args[0].args[0], ast.Call)
+                    and isinstance(v.args[0].args[0].func, ast.Name) and v.args[0].args[0].func.id == 'inv'
+                    and not v.args[0].args[0].keywords and len(v.args[0].args[0].args) == 1
+                    and _is_name(v.args[0].args[0].args[0], covar)):
+                return None
+            sig = 1
+        else:
+            return None
+    if sig != 1:
+        return None
+    return code, word
+
+
+def _fisher_slice_text(tree):
+    fn = [n for n in tree.body if isinstance(n, ast.FunctionDef) and n.name == 'covar_errors'][0]
+    params = [a.arg for a in fn.args.args]
+    if 'C' not in params or 'B' not in params or 'errs' not in params:
+        return None
+    if not any(isinstance(st, ast.Assign) and ast.unparse(st) == f'mask = np.where(np.isfinite({params[1]}))' for st in fn.body):
+        return None
+    branches = {}
+    for st in fn.body:
+        if isinstance(st, ast.If) and isinstance(st.test, ast.Compare) and _is_name(st.test.left, 'C') \
+                and len(st.test.ops) == 1 and isinstance(st.test.comparators[0], ast.Constant) \
+                and st.test.comparators[0].value is None and not st.orelse and len(st.body) == 1 \
+                and isinstance(st.body[0], ast.Try):
+            key = 'c' if isinstance(st.test.ops[0], ast.IsNot) else 'b' if isinstance(st.test.ops[0], ast.Is) else None
+            if key is None or key in branches:
+                return None
+            branches[key] = _fisher_branch(st.body[0].body, params)
+    if set(branches) != {'b', 'c'} or None in branches.values():
+        return None
+    (jc, wc), (jb, wb) = branches['c'], branches['b']
+    out = "def fisher(k):\n    wc = 0\n    wb = 0\n"
+    out += "".join(f"    if k == {i}:\n        wc = {c}\n" for i, c in enumerate(wc))
+    out += "".join(f"    if k == {i}:\n        wb = {c}\n" for i, c in enumerate(wb))
+    out += f"    nc = {len(wc)}\n    nb = {len(wb)}\n    jc = {jc}\n    jb = {jb}\n    sig = 1\n"
+    return out
+
+
+_S = _lmj_slice()
+
 _P = ['x', 'y', 'amp', 'xo', 'yo', 'sx', 'sy', 'theta']
 _PARAMS = {p: 'A' for p in _P}
 _H = 'Aegean.Model.C04'
@@ -388,6 +648,18 @@ TARGETS = [
          all_params=_P)
     for k, name in enumerate(['dmds', 'dmdxo', 'dmdyo', 'dmdsx', 'dmdsy', 'dmdtheta'])
 ] + [
+    dict(file=_S, func='lmj', mode='int', params={'k': 'N'},
+         outputs=[('op', 'lmjOp'), ('n', 'lmjLen'), ('src', 'lmjSrc')],
+         fallback={'lmjOp': 'def lmjOp (k : Nat) : Nat := Aegean.Model.C04.lmjOpHand k',
+                   'lmjLen': 'def lmjLen (k : Nat) : Nat := Aegean.Model.C04.lmjLenHand k',
+                   'lmjSrc': 'def lmjSrc (k : Nat) : Nat := Aegean.Model.C04.lmjSrcHand k'},
+         all_params=['k']),
+    dict(file=_S, func='fisher', mode='int', params={'k': 'N'},
+         outputs=[('wc', 'fisWordC'), ('wb', 'fisWordB'), ('nc', 'fisLenC'), ('nb', 'fisLenB'), ('jc', 'fisJacC'),
+                  ('jb', 'fisJacB'), ('sig', 'fisSigma')],
+         fallback={n: f'def {n} (k : Nat) : Nat := Aegean.Model.C04.{n}Hand k'
+                   for n in ['fisWordC', 'fisWordB', 'fisLenC', 'fisLenB', 'fisJacC', 'fisJacB', 'fisSigma']},
+         all_params=['k']),
     # OBSERVATION ONLY (not part of the C04 verdict: the hessian is not handed to the optimiser; it feeds
     # RB_bias).  The 21 upper-triangle second-derivative expressions of `fitting.hessian`, named h_P_Q.
     # No fallback: if they become untranslatable they are simply absent and only
